@@ -390,6 +390,8 @@ def run_check(prop, tier, seed=None, workers=None, runs=None, wall=None):
                     e = [x for x in entries if x['id'] == gkey[2]][0]
                     known_lines.append('KNOWN-FINDING: property=%s %s' % (prop, e['text']))
                 continue
+            if violation_lines and os.environ.get('COPSIM_FIRST_ONLY'):
+                break                       # self-tests only need to know that it was caught
             if len(violation_lines) >= max_report:
                 # beyond the report limit: no minimisation, but still a replayable VIOLATION
                 small, used = run, 0
